@@ -287,17 +287,38 @@ inductive Outcome (α : Type) where
   | panic
   deriving DecidableEq, Repr
 
-/-- the exclusions loop of `MavenDepTypeToDependency`: `i := strings.Index(ex, ":")`,
-`ex[:i]` — a slice bound of -1 when a segment has no colon: `none` = run-time panic -/
-def parseExclusions : List Bytes → Option (List Exclusion)
-  | [] => some []
-  | seg :: rest =>
-    match cutColon seg with
-    | none => none
-    | some (g, a) =>
-      match parseExclusions rest with
+/-- `strings.Index(ex, ":")` (`none` = -1) -/
+def indexColon : Bytes → Option Nat
+  | [] => none
+  | c :: rest =>
+    if c = cColon then some 0
+    else match indexColon rest with
       | none => none
-      | some l => some (⟨g, a⟩ :: l)
+      | some i => some (i + 1)
+
+/-- the two slice expressions `ex[:i]`, `ex[i+1:]` as checked operations: `none` = the run-time
+panic "slice bounds out of range" -/
+def sliceAround (s : Bytes) (i : Nat) : Option (Bytes × Bytes) :=
+  if i + 1 ≤ s.length then some (s.take i, s.drop (i + 1)) else none
+
+/-- the exclusions loop of `MavenDepTypeToDependency`: an empty segment is skipped (`MavenDepType`
+leaves the attribute empty when every exclusion had to be skipped), a segment without a colon is the
+error `invalid Maven dep.Type`, otherwise the segment is sliced around its first colon -/
+def parseExclusions : List Bytes → Outcome (List Exclusion)
+  | [] => .ok []
+  | seg :: rest =>
+    if seg.isEmpty then parseExclusions rest
+    else
+      match indexColon seg with
+      | none => .err
+      | some i =>
+        match sliceAround seg i with
+        | none => .panic
+        | some (g, a) =>
+          match parseExclusions rest with
+          | .ok l => .ok (⟨g, a⟩ :: l)
+          | .err => .err
+          | .panic => .panic
 
 /-- the value of an attribute, `""` when it is absent -/
 def orEmpty : Option Bytes → Bytes
@@ -312,21 +333,22 @@ def backScope (t : DType) : Option Bytes :=
   | none => some scope0
   | some s => if !scope0.isEmpty then none else some s
 
-/-- the exclusions it reconstructs (`none` = run-time panic) -/
-def backExclusions (t : DType) : Option (List Exclusion) :=
+/-- the exclusions it reconstructs -/
+def backExclusions (t : DType) : Outcome (List Exclusion) :=
   match t.excl with
-  | none => some []
+  | none => .ok []
   | some e => parseExclusions (splitPipe e)
 
 /-- `MavenDepTypeToDependency(typ)`: the dependency (group, artifact, version empty) and the origin.
-The error return precedes the exclusions loop. -/
+The error return for Test together with Scope precedes the exclusions loop. -/
 def mavenDepTypeToDependency (t : DType) : Outcome (Dep × Bytes) :=
   match backScope t with
   | none => .err
   | some scope =>
     match backExclusions t with
-    | none => .panic
-    | some ex =>
+    | .err => .err
+    | .panic => .panic
+    | .ok ex =>
       .ok (⟨[], [], [], orEmpty t.typ, orEmpty t.cls, scope, if t.opt then bTrue else [], ex⟩, orEmpty t.origin)
 
 /-- one `RequirementVersion` of the result (system Maven, version type Requirement) -/
